@@ -187,3 +187,45 @@ func CanonPDesc(d *ring.PartitionRingDesc) string {
 	sort.Strings(xs)
 	return strings.Join(xs, " ")
 }
+
+// CanonDescN / CanonPDescN render states with tombstones reduced to their identity (entry, removal
+// timestamp): two replicas that removed the same entry in the same second keep different residual
+// fields in their tombstones, which no reader can observe.
+func CanonDescN(d *ring.Desc) string {
+	if d == nil {
+		return "<nil>"
+	}
+	xs := make([]string, 0, len(d.Ingesters))
+	for id, in := range d.Ingesters {
+		if in.State == ring.LEFT {
+			xs = append(xs, fmt.Sprintf("%s{LEFT@%d}", id, in.Timestamp))
+			continue
+		}
+		xs = append(xs, CanonInst(id, in))
+	}
+	sort.Strings(xs)
+	return strings.Join(xs, " ")
+}
+
+func CanonPDescN(d *ring.PartitionRingDesc) string {
+	if d == nil {
+		return "<nil>"
+	}
+	var xs []string
+	for id, p := range d.Partitions {
+		if p.State == ring.PartitionDeleted {
+			xs = append(xs, fmt.Sprintf("p%d{Deleted@%d lock=%v@%d}", id, p.StateTimestamp, p.StateChangeLocked, p.StateChangeLockedTimestamp))
+			continue
+		}
+		xs = append(xs, CanonPart(id, p))
+	}
+	for id, o := range d.Owners {
+		if o.State == ring.OwnerDeleted {
+			xs = append(xs, fmt.Sprintf("o%s{Deleted@%d}", id, o.UpdatedTimestamp))
+			continue
+		}
+		xs = append(xs, CanonOwner(id, o))
+	}
+	sort.Strings(xs)
+	return strings.Join(xs, " ")
+}
